@@ -129,30 +129,26 @@ def attempt_run(name, defs, tier, seed, cfgs, tlc_workers=8):
 
     res = run_tlc("Attempt.tla", "Attempt.cfg", {"DEFS": defs_path, "HALT": "0", "EMIT": "1"}, workers=tlc_workers,
                   metaname="attempt-" + name, timeout=3000 if tier == "quick" else 10000)
-    recs = tlc_records(res["out"])
-    replays = [r[2] for r in recs if r[0] == "REPLAY"]
-    viols = [{"tag": r[1], "d": r[2]["d"], "id": meta_by_idx[r[2]["d"]]["id"], "path": r[2]["path"], "w": r[2]["w"]} for r in recs if r[0] == "VIOL"]
-    if len(replays) != res["distinct"]:
-        raise ToolError("REPLAY lines (%d) != distinct states (%d)" % (len(replays), res["distinct"]))
-    log("[attempt:%s] TLC %d states, %d distinct, depth %d, %d VIOL, %.1fs" % (name, res["states"], res["distinct"], res["depth"], len(viols), res["wall"]))
-
     bins = build_subjects(metas, cfgs, name)
-    log("[attempt:%s] subjects built (%.1fs)" % (name, time.time() - t0))
+    log("[attempt:%s] TLC %d states, %d distinct, depth %d, %.1fs; subjects built (%.1fs)" % (name, res["states"], res["distinct"], res["depth"], res["wall"], time.time() - t0))
 
     rng = random.Random(seed)
-    requests = []   # (request line, info)
-    for rec in replays:
+    findings = []
+    viols = []
+    samples = []
+    counts = {"replay": 0, "requests": 0, "explored": set()}
+
+    def requests_of(rec):
         m = meta_by_idx[rec["d"]]
         is_str = m["utf8"]
         nb = len(m["blocks"])
         pbytes = []
         for x in rec["path"]:
-            bb = block_bytes(m, x)
-            pbytes.append(rng.choice(bb))
-        # tails that any continuation may take: empty, and one more character
+            pbytes.append(rng.choice(block_bytes(m, x)))
+        out = []
         for x in range(1, nb + 1):
-            out = rec["term"][x - 1]
-            if out[0] in (K_CONT, K_BAD):
+            o = rec["term"][x - 1]
+            if o[0] in (K_CONT, K_BAD):
                 continue
             bb = block_bytes(m, x)
             if tier == "thorough":
@@ -165,65 +161,91 @@ def attempt_run(name, defs, tier, seed, cfgs, tlc_workers=8):
                     base = base + utf8_need(base)
                 for tail in ([], [0x61]):
                     data = base + tail
-                    requests.append(("%d ft %s" % (rec["d"], hexs(data)),
-                                     {"d": rec["d"], "what": "byte", "path": rec["path"], "x": x, "data": data, "exp": expected_first(m, out, data, is_str)}))
+                    out.append(("%d ft %s" % (rec["d"], hexs(data)),
+                                {"d": rec["d"], "what": "byte", "path": rec["path"], "x": x, "data": data, "exp": expected_first(m, o, data, is_str)}))
         if rec["eoi"][0] != K_BAD:
             data = list(pbytes)
-            requests.append(("%d ft %s" % (rec["d"], hexs(data)),
-                             {"d": rec["d"], "what": "eoi", "path": rec["path"], "x": 0, "data": data, "exp": expected_first(m, rec["eoi"], data, is_str)}))
-            requests.append(("%d pt %s" % (rec["d"], hexs(data)),
-                             {"d": rec["d"], "what": "buf", "path": rec["path"], "x": 0, "data": data, "must": rec["must"],
-                              "exp": expected_first(m, rec["buf"], data, is_str)}))
-    log("[attempt:%s] %d replay requests x %d configurations" % (name, len(requests), len(cfgs)))
+            out.append(("%d ft %s" % (rec["d"], hexs(data)),
+                        {"d": rec["d"], "what": "eoi", "path": rec["path"], "x": 0, "data": data, "exp": expected_first(m, rec["eoi"], data, is_str)}))
+            out.append(("%d pt %s" % (rec["d"], hexs(data)),
+                        {"d": rec["d"], "what": "buf", "path": rec["path"], "x": 0, "data": data, "must": rec["must"],
+                         "exp": expected_first(m, rec["buf"], data, is_str)}))
+        return out
 
-    findings = []
-    replies_by_cfg = {}
-    lines = [r[0] for r in requests]
-    for c in cfgs:
-        replies = run_subject(bins[c], lines, timeout=1200)
-        if len(replies) != len(lines):
-            raise ToolError("subject %s returned %d replies for %d requests" % (c, len(replies), len(lines)))
-        replies_by_cfg[c] = replies
-        for (line, info), rep in zip(requests, replies):
-            got = first_attempt(rep)
-            exp = info["exp"]
-            m = meta_by_idx[info["d"]]
-            ok = True
-            kind = None
-            if info["what"] == "buf":
-                must = info["must"]
-                if must == "none":
-                    ok = got["kind"] == "none" and got.get("start") == 0 and got.get("end") == 0
-                    kind = "partial_safety"
-                elif must == "commit":
-                    ok = same_decision(exp, got)
-                    kind = "partial_prompt" if got["kind"] == "none" else "partial_wrong"
-                else:
-                    ok = got["kind"] == "none" or same_decision(exp, got)
-                    kind = "partial_wrong"
-            else:
-                ok = same_decision(exp, got)
-                kind = ("err_span" if exp["kind"] == "err" or got["kind"] == "err" else "munch") if info["what"] == "byte" else "eoi"
-                if got["kind"] in ("panic", "died"):
-                    kind = "crash"
-            if not ok:
-                findings.append({"def": m["id"], "cfg": c, "kind": kind, "what": info["what"], "input": hexs(info["data"]),
-                                 "path": info["path"], "x": info["x"], "expected": exp, "got": got, "src": m["src"],
-                                 "must": info.get("must")})
-    # C05/C06: all configurations must agree on everything they returned
-    base = cfgs[0]
-    for c in cfgs[1:]:
-        for (line, info), a, b in zip(requests, replies_by_cfg[base], replies_by_cfg[c]):
-            sa = {k: v for k, v in a.items()}
-            sb = {k: v for k, v in b.items()}
-            if strip_events(sa) != strip_events(sb):
+    def flush(batch):
+        if not batch:
+            return
+        lines = [r[0] for r in batch]
+        replies_by_cfg = {}
+        for c in cfgs:
+            replies = run_subject(bins[c], lines, timeout=1800)
+            if len(replies) != len(lines):
+                raise ToolError("subject %s returned %d replies for %d requests" % (c, len(replies), len(lines)))
+            replies_by_cfg[c] = replies
+            for (line, info), rep in zip(batch, replies):
+                got = first_attempt(rep)
+                exp = info["exp"]
                 m = meta_by_idx[info["d"]]
-                findings.append({"def": m["id"], "cfg": base + "/" + c, "kind": "cfg_diff", "what": info["what"], "input": hexs(info["data"]),
-                                 "path": info["path"], "x": info["x"], "expected": strip_events(sa), "got": strip_events(sb), "src": m["src"]})
-    samples = []
-    for (line, info) in requests[:: max(1, len(requests) // 6)][:6]:
-        m = meta_by_idx[info["d"]]
-        samples.append({"def": m["id"], "input_hex": hexs(info["data"]), "mode": info["what"], "expected": info["exp"]})
+                if info["what"] == "buf":
+                    must = info["must"]
+                    if must == "none":
+                        ok = got["kind"] == "none" and got.get("start") == 0 and got.get("end") == 0
+                        kind = "partial_safety"
+                    elif must == "commit":
+                        ok = same_decision(exp, got)
+                        kind = "partial_prompt" if got["kind"] == "none" else "partial_wrong"
+                    else:
+                        ok = got["kind"] == "none" or same_decision(exp, got)
+                        kind = "partial_wrong"
+                else:
+                    ok = same_decision(exp, got)
+                    kind = ("err_span" if exp["kind"] == "err" or got["kind"] == "err" else "munch") if info["what"] == "byte" else "eoi"
+                    if got["kind"] in ("panic", "died"):
+                        kind = "crash"
+                if not ok and len(findings) < 5000:
+                    findings.append({"def": m["id"], "cfg": c, "kind": kind, "what": info["what"], "input": hexs(info["data"]),
+                                     "path": info["path"], "x": info["x"], "expected": exp, "got": got, "src": m["src"], "must": info.get("must")})
+                elif not ok:
+                    counts["more"] = counts.get("more", 0) + 1
+        # C05/C06: all configurations must agree on everything they returned
+        base = cfgs[0]
+        for c in cfgs[1:]:
+            for (line, info), ra, rb in zip(batch, replies_by_cfg[base], replies_by_cfg[c]):
+                sa, sb = strip_events(ra), strip_events(rb)
+                if sa != sb and len(findings) < 5000:
+                    m = meta_by_idx[info["d"]]
+                    findings.append({"def": m["id"], "cfg": base + "/" + c, "kind": "cfg_diff", "what": info["what"], "input": hexs(info["data"]),
+                                     "path": info["path"], "x": info["x"], "expected": sa, "got": sb, "src": m["src"]})
+        if len(samples) < 6:
+            line, info = batch[len(batch) // 2]
+            samples.append({"def": meta_by_idx[info["d"]]["id"], "input_hex": hexs(info["data"]), "mode": info["what"], "expected": info["exp"]})
+        counts["requests"] += len(batch)
+
+    batch = []
+    for tag, sub, rec in tlc_records(res):
+        if tag == "VIOL":
+            if len(viols) < 2000:
+                viols.append({"tag": sub, "d": rec["d"], "id": meta_by_idx[rec["d"]]["id"], "path": rec["path"], "w": rec["w"]})
+            counts["viol"] = counts.get("viol", 0) + 1
+            continue
+        if tag != "REPLAY":
+            continue
+        counts["replay"] += 1
+        counts["explored"].add(rec["d"])
+        batch.extend(requests_of(rec))
+        if len(batch) >= 120000:
+            flush(batch)
+            batch = []
+    flush(batch)
+    if counts["replay"] != res["distinct"]:
+        raise ToolError("REPLAY lines (%d) != distinct states (%d)" % (counts["replay"], res["distinct"]))
+    from pipeline import drop_records
+    drop_records(res)
+    log("[attempt:%s] %d replay requests x %d configurations, %d VIOL, %d findings" % (name, counts["requests"], len(cfgs), counts.get("viol", 0), len(findings) + counts.get("more", 0)))
+    n_requests = counts["requests"]
+    n_viol = counts.get("viol", 0)
+    n_findings = len(findings) + counts.get("more", 0)
+    explored = len(counts["explored"])
     # structural coverage: which kinds of graph states the explored definitions contain
     kinds = {}
     for line in open(defs_path):
@@ -243,10 +265,10 @@ def attempt_run(name, defs, tier, seed, cfgs, tlc_workers=8):
         "name": name, "tier": tier, "seed": seed, "cfgs": cfgs,
         "tlc": {k: res[k] for k in ("states", "distinct", "depth", "wall")},
         "defs": len(metas), "accepted": sum(1 for m in metas if m["accepted"]),
-        "explored": len({r["d"] for r in replays}),
-        "viol": viols[:2000], "n_viol": len(viols),
-        "findings": findings[:5000], "n_findings": len(findings),
-        "requests": len(requests), "runs": len(requests) * len(cfgs),
+        "explored": explored,
+        "viol": viols, "n_viol": n_viol,
+        "findings": findings, "n_findings": n_findings,
+        "requests": n_requests, "runs": n_requests * len(cfgs),
         "samples": samples, "wall": time.time() - t0,
         "def_ids": {m["id"]: {"accepted": m["accepted"], "tags": m["tags"]} for m in metas},
     }
@@ -293,7 +315,7 @@ def stages_run(name, defs, tier):
     res = run_tlc("Attempt.tla", "Attempt.cfg", {"DEFS": out_path, "HALT": "0", "EMIT": "0"}, workers=8, metaname="stages-" + name,
                   timeout=3000 if tier == "quick" else 10000)
     viols = []
-    for tag, sub, rec in tlc_records(res["out"]):
+    for tag, sub, rec in tlc_records(res):
         if tag == "VIOL" and sub not in ("TPartPrompt", "TPartSafe", "TRoot"):
             did, stage = index[rec["d"] - 1]
             w = rec["w"]
